@@ -1,22 +1,30 @@
 """What is claimed per property (source of MANIFEST.json)."""
 UNBUILT = 'check not built yet in this session (planned in DESIGN.md section 6); not claimed until it runs'
+KM = 'Kani/CBMC bounded model checking of the compiled code (bit-precise f64) + symbolic execution of rustc MIR with z3/cvc5 (exact reals)'
+M_ONLY = 'symbolic execution of rustc MIR of /repo (mirsym) with z3 4.8/5.1 and cvc5; f64 as exact reals; counterexamples replayed on the real build'
+TRUST_M = ('Trusted: nightly rustc MIR dump as the semantics of the source, the mirsym executor and its contract summaries of std/nalgebra/parry '
+           '(listed per run in evidence.assumptions), z3/cvc5. Exact real arithmetic: rounding-level behaviour is outside the claim; every violation is '
+           'replayed on the real dev and release builds before it is reported. Bounds per unit in evidence.coverage.units[].bounds.')
 CLAIMS = {
-    'C16': dict(engine='K', design_ref='DESIGN.md section 6 C16',
-        technique='bounded model checking of the compiled code (Kani/CBMC, SAT), bit-precise f64',
-        text='Kani/CBMC decides, for all f64 values and all push/append/merge histories within the stated sizes (<= 4 pushes, clouds of <= 2 points, <= 3 breakpoints), that the aggregates track their contents; one-step harnesses from an arbitrary valid state make the claim inductive over histories. Counterexamples are replayed by concrete playback on the real build.',
-        note='Trusted: Kani/CBMC/CaDiCaL, rustc MIR->goto translation, --ignore-global-asm (generator crate, unreachable). Bounds: see evidence.coverage.units[].unwind and assumptions. CBMC float side-checks (NaN on inf-inf etc.) are filtered, counted in evidence. Deviation sign/magnitude clauses (point_curve2_deviation, measure_point_deviation) are not yet decided.'),
-    'C17': dict(engine='K', design_ref='DESIGN.md section 6 C17',
-        technique='bounded model checking of the compiled code (Kani/CBMC, SAT), bit-precise f64',
-        text='Kani/CBMC decides for all f64 inputs with n <= 3 samples that DiscreteDomain / linear / linear_space / Series1::try_new / index_of / interpolate (knots, outside) / index_of_x_after return finite ascending abscissae with matching ordinates or an error.',
-        note='Trusted: Kani/CBMC. Bounds: n <= 3; linear() bounds integer-valued in [-1000,1000]. Derived-series operations (between, split, resample, scaling, crossings) are not decided by K (CBMC out of memory) and are planned for engine M.'),
-    'C18': dict(engine='K', design_ref='DESIGN.md section 6 C18',
-        technique='bounded model checking of the compiled code (Kani/CBMC, SAT), bit-precise f64',
-        text='Kani/CBMC decides the scalar Interval algebra (ordering on construction, NaN rejection, contains/overlaps/intersection/clamp against their set definitions, commutativity) over the whole f64 domain including infinities, and signed_compliment_2pi on [-2pi, 2pi].',
-        note='Trusted: Kani/CBMC. Everything built on f64 `%` (angle normalisation, AngleInterval) is outside K: CBMC\'s model of `%` is not IEEE fmod (a counterexample did not replay); those clauses are planned for engine M.'),
+    'C11': dict(engine='M', design_ref='DESIGN.md section 6 C11', technique=M_ONLY,
+        text='For circle-circle intersections, tangent points from an external point and outer tangent segments, the MIR of the real functions is executed on symbolic circles (any radii in (0,1e3], centre in [-1e3,1e3]^2, second centre along concrete axis/Pythagorean direction classes at a symbolic distance, plus general position for the cheaper kernels) and the solver shows for all of them: no non-finite coordinate, every returned point on both objects, tangent perpendicular to the radius, documented left/right order, count by configuration; every panic path is a violation.',
+        note=TRUST_M + ' Not yet decided: line/segment/curve-circle intersections, three-point arcs, arc length/point-at, bounding boxes. Nearly concentric circles (0 < d < 1e-3) are outside the claim (conditioning).'),
+    'C12': dict(engine='M', design_ref='DESIGN.md section 6 C12', technique=M_ONLY + '; hash containers as unordered sets whose iteration order is forked symbolically',
+        text='Edge table / face-edge map / boundary loops, patch decomposition, voxel clustering and index chaining are executed from their MIR on symbolic vertex ids (every relative order of the labels, per contact configuration of <= 3 faces; <= 3 pairs; <= 2 voxels) and for every hash iteration order; the solver shows exact-partition and exactly-once clauses, termination within a stated loop budget, and for the box/cylinder generators consistent winding and outward normals for all positive sizes.',
+        note=TRUST_M + ' Bounds: F <= 2 faces in 6 contact configurations + 3-face fans/strips (quick), <= 4 faces (thorough); loop budgets stated per unit; integer-only queries.'),
+    'C16': dict(engine='K+M', design_ref='DESIGN.md section 6 C16', technique=KM,
+        text='K: for all f64 values and all push/append/merge histories within the stated sizes (<= 4 pushes, clouds of <= 2 points, <= 3 breakpoints) the aggregates track their contents; one-step harnesses from an arbitrary valid state make the claim inductive over histories. M: point_curve2_deviation (magnitude = distance, sign = normal side, reference + direction*value reconstructs the point) and Distance value/reversal for all symbolic stations/points in the direction classes.',
+        note='Trusted: Kani/CBMC/CaDiCaL, --ignore-global-asm (generator crate, unreachable); ' + TRUST_M + ' CBMC float side-checks (NaN on inf-inf etc.) are filtered and counted. Mesh::measure_point_deviation and the closest-point search itself are not decided (parry).'),
+    'C17': dict(engine='K+M', design_ref='DESIGN.md section 6 C17', technique=KM,
+        text='K: DiscreteDomain / linear / linear_space / Series1::try_new / index_of / interpolate (knots, outside) / index_of_x_after over all f64 with n <= 3. M: between, split_at_x (+ area additivity), interpolate (linear blend), y_crossings (soundness + completeness), resampled_n, scaled_by (both signs), shift_by, remove_nan for symbolic series of n <= 3 (4 thorough) samples: ascending finite abscissae, matching ordinates, function preservation, no panic.',
+        note='Trusted: Kani/CBMC; ' + TRUST_M + ' Known finding: slope overflow of interpolate at subnormal abscissa gaps (KNOWN_FINDINGS.jsonl).'),
+    'C18': dict(engine='K+M', design_ref='DESIGN.md section 6 C18', technique=KM,
+        text='K: scalar Interval algebra over the whole f64 domain (ordering, NaN rejection, contains/overlaps/intersection/clamp vs. set definitions) and signed_compliment_2pi. M: angle_to_2pi / angle_signed_pi (range, same direction) for any real magnitude <= 1e6, angle_in_direction (range, cw+ccw, rotation), AngleInterval new/contains/intersects against the swept set, signed_angle / directed_angle for vector pairs in the direction classes.',
+        note='Trusted: Kani/CBMC; ' + TRUST_M + ' f64 PI is identified with pi and `%` is modelled as exact fmod with an integer quotient; CBMC\'s model of `%` is not IEEE fmod, so K makes no claim about the fmod kernels.'),
 }
 NOT_APPLICABLE = {
     'C10': 'airfoil analysis: data-dependent iterative f64 numerics over parry BVH queries; no bounded encoding within reach of Kani or the MIR executor (DESIGN.md section 7)',
     'C20': 'conformal flattening: solution of sparse linear systems (faer LU) with acos-derived entries; outside NRA and outside Kani (DESIGN.md section 7)',
 }
-for _p in ['C01','C02','C03','C04','C05','C06','C07','C08','C09','C11','C12','C13','C14','C15','C19']:
+for _p in ['C01','C02','C03','C04','C05','C06','C07','C08','C09','C13','C14','C15','C19']:
     NOT_APPLICABLE[_p] = UNBUILT
